@@ -433,6 +433,13 @@ fn ev_strategy() -> impl Strategy<Value = Ev> {
                 let _ = asm_mode;
                 Ev::Type(format!("load counter.asm\nnext {}", n))
             }),
+        // the same analog value entered again after the comparators were moved by the program and a load
+        // reset the DACs (the library setter re-evaluates the comparator every time)
+        1 => (prop::sample::select(vec!["TEMP", "I1", "I2"]), prop::sample::select(vec!["2", "2.5", "1", "5", "0.5"]), 20u32..200, any::<bool>())
+            .prop_map(|(var, v, n, reload)| {
+                let second = if reload { "load good.asm" } else { "load dac.asm" };
+                Ev::Type(format!("set {} = {}\nload dac.asm\nnext {}\n{}\nset {} = {}", var, v, n, second, var, v))
+            }),
         // two lines in a row that are equal, or equal up to letter case / blanks (history, repeated
         // commands, `load` of paths that differ only in case): '\n' inside a macro is the Enter key
         3 => (command_line(), any::<u32>(), 0u8..5).prop_map(|(l, mask, how)| {
@@ -492,6 +499,8 @@ pub fn prepare_scratch() {
     // a program that writes RAM outside its code (data cell, stack): a reload has to clear all of it again
     let counter = "#! mrasm\n LDSP 0xEF\nLOOP:\n LD R0, (0x80)\n INC R0\n ST (0x80), R0\n ST (0xFF), R0\n PUSH R0\n CALL SUB\n POP R1\n JR LOOP\nSUB:\n ST (0x81), R1\n RET\n";
     let _ = std::fs::write(d.join("counter.asm"), counter);
+    // a program that drives both DACs to full scale (comparator bits drop) and then idles
+    let _ = std::fs::write(d.join("dac.asm"), "#! mrasm\n LD R0, 0xFF\n ST (0xF0), R0\n ST (0xF1), R0\nL:\n JR L\n");
     // same name in another letter case, different program: paths are case-sensitive, keywords are not
     let _ = std::fs::write(d.join("GOOD.ASM"), good2);
     let _ = std::fs::write(d.join("é.asm"), good);
